@@ -1,5 +1,5 @@
 """C01 — the collector never reclaims a reachable object (structural necessary conditions)."""
-from . import ir, util, loops
+from . import probe, ir, util, loops
 from .report import site
 from .front import AnalysisBroken
 from .loops import NoEval
@@ -740,6 +740,16 @@ def run(ctx, load):
     check_range_filter(P, ctx)
     check_stack_bottom(P, ctx)
     check_recursion(P, ctx)
+    # the marker finds an object only through the probe distance of the entries it passes: entries that wrapped past the end of
+    # the table included
+    why = probe.probe_function_eval(P, 'GC_Probe')
+    ctx.check(why is None, 'C01.probe-distance', 'GC_Probe', site(P.fn('GC_Probe')),
+              'the probe distance of a registry entry is (slot - home) modulo the slot count, non-negative also for entries that wrapped past the end '
+              'of the table (a wrong distance ends the marker\'s lookup early: a reachable object stays unmarked)', [why] if why else None)
+    ctx.floor('C01.probe-distance', 1)
+    # a root / a fresh object is registered before its constructor can allocate (and so trigger a collection)
+    from .rules_c06 import check_registered_before_use
+    check_registered_before_use(P, ctx, rule='C01.registered-before-constructed')
     if ctx.tier == 'thorough':
         for cfg in ('ndebug', 'nocache'):
             Pc = load(UNITS, cfg, WITNESS)
